@@ -277,7 +277,49 @@ impl Sim {
         raft::verif_raft::set_timeout_seed(Some(self.rng.next() | 1));
         n.sstore.set_applied(n.applied);
         let r = catch(|| RawNode::new(&cfg, n.sstore.clone(), &logger()));
-        let _ = raft::verif_raft::take_draws();
+        let draws: Vec<u64> = raft::verif_raft::take_draws().into_iter().map(|x| x as u64).collect();
+        if self.rec.enabled {
+            let (case_line, impl_line) = new_case(&cfg, &n.sstore, &draws, &r);
+            let o = CallOutcome { case_line, impl_line, panicked: None, ret_code: 0, ready: None, light: None, conf_state: None, flag: false };
+            let meta = format!("new {} {}", n.applied, match &r { Ok(Ok(_)) => "ok", Ok(Err(_)) => "err", Err(_) => "panic" });
+            self.rec.put(&o, &meta);
+            // a second, perturbed configuration over the same storage (mostly rejected or panicking;
+            // not used by the simulation itself): exercises Config::validate and the start-up checks
+            if self.rng.chance(1, 2) {
+                let mut c2 = cfg.clone();
+                match self.rng.below(12) {
+                    0 => c2.id = 0,
+                    1 => c2.heartbeat_tick = 0,
+                    2 => c2.election_tick = c2.heartbeat_tick,
+                    3 => c2.min_election_tick = c2.election_tick.saturating_sub(1).max(1),
+                    4 => {
+                        c2.min_election_tick = c2.election_tick + 2;
+                        c2.max_election_tick = c2.election_tick + self.rng.below(4) as usize;
+                    }
+                    5 => c2.max_inflight_msgs = 0,
+                    6 => {
+                        c2.read_only_option = raft::ReadOnlyOption::LeaseBased;
+                        c2.check_quorum = false;
+                    }
+                    7 => c2.max_uncommitted_size = c2.max_size_per_msg.saturating_sub(1),
+                    8 => c2.applied = self.rng.below(12),
+                    9 => c2.applied = n.applied + 1 + self.rng.below(3),
+                    10 => {
+                        c2.min_election_tick = c2.election_tick + self.rng.below(3) as usize;
+                        c2.max_election_tick = c2.min_election_tick + 1 + self.rng.below(5) as usize;
+                    }
+                    _ => c2.max_apply_unpersisted_log_limit = self.rng.below(4),
+                }
+                raft::verif_raft::set_timeout_seed(Some(self.rng.next() | 1));
+                let st2 = n.sstore.clone();
+                let r2 = catch(|| RawNode::new(&c2, st2, &logger()));
+                let d2: Vec<u64> = raft::verif_raft::take_draws().into_iter().map(|x| x as u64).collect();
+                let (case_line, impl_line) = new_case(&c2, &n.sstore, &d2, &r2);
+                let o = CallOutcome { case_line, impl_line, panicked: None, ret_code: 0, ready: None, light: None, conf_state: None, flag: false };
+                let meta = format!("new-perturbed {} {}", c2.applied, match &r2 { Ok(Ok(_)) => "ok", Ok(Err(_)) => "err", Err(_) => "panic" });
+                self.rec.put(&o, &meta);
+            }
+        }
         match r {
             Ok(Ok(node)) => {
                 let (t, v) = (node.raft.term, node.raft.vote);
@@ -735,7 +777,35 @@ impl Sim {
                     self.apply_entries(i, false, true);
                 }
             }
-            770..=839 => {
+            770..=779 => {
+                // a batched proposal (as an application may forward): several entries in one
+                // MsgPropose, membership changes anywhere in the batch
+                let t = self.leader().filter(|_| !self.rng.chance(1, 5)).unwrap_or(i);
+                let k = 2 + self.rng.below(3);
+                let mut ents = vec![];
+                for _ in 0..k {
+                    let mut e = Entry::default();
+                    if self.rng.chance(2, 5) {
+                        let (ty, data) = match self.random_cc() {
+                            CcKind::V1(cc) => (EntryType::EntryConfChange, cc.write_to_bytes().unwrap()),
+                            CcKind::V2(cc) => (EntryType::EntryConfChangeV2, cc.write_to_bytes().unwrap()),
+                            CcKind::Raw(t, d) => (if t == 1 { EntryType::EntryConfChange } else { EntryType::EntryConfChangeV2 }, d),
+                        };
+                        e.set_entry_type(ty);
+                        e.data = data.into();
+                    } else {
+                        e.data = self.payload().into();
+                    }
+                    ents.push(e);
+                }
+                let mut m = Message::default();
+                m.set_msg_type(MessageType::MsgPropose);
+                m.from = 1 + self.rng.below(nn as u64);
+                m.to = self.nodes[t].id;
+                m.set_entries(ents.into());
+                self.call(t, Call::Step(m));
+            }
+            780..=839 => {
                 let t = self.leader().filter(|_| !self.rng.chance(1, 5)).unwrap_or(i);
                 let p = self.payload();
                 let ctx = if self.rng.chance(1, 5) { vec![7] } else { vec![] };
